@@ -8,7 +8,7 @@
 From Coq Require Import ZArith List Bool.
 Import ListNotations.
 From TD Require Import Spec.PySlice Spec.C08_Dense Model.C08_Lazy Model.C08_Write
-  Proofs.C08_CoordP Proofs.C08_IndexP Proofs.C08_ShapeP Proofs.C08_CatP Proofs.C08_WriteP.
+  Proofs.C08_CoordP Proofs.C08_IndexP Proofs.C08_EllP Proofs.C08_AdvP Proofs.C08_ShapeP Proofs.C08_CatP Proofs.C08_WriteP.
 Open Scope Z_scope.
 
 (* ---- the stack itself ------------------------------------------------------------------------------------- *)
@@ -39,6 +39,20 @@ Theorem C08_getitem_basic : forall fuel self bs idx a' rsd,
 Proof. exact getitem_basic. Qed.
 Print Assumptions C08_getitem_basic.
 
+(* ... and with an Ellipsis: utils.convert_ellipsis_to_idx yields the numpy/torch expansion (as many full slices as there
+   are dims not addressed by the other items), for every index of ints / slices / None / Ellipsis and every rank ... *)
+Theorem C08_convert_ellipsis_spec : forall idx rank l,
+  ell_basic idx -> spec_expand idx rank = Some l -> convert_ellipsis idx rank = Ok l.
+Proof. exact convert_ellipsis_spec. Qed.
+Print Assumptions C08_convert_ellipsis_spec.
+
+(* ... so lazy[idx] with an Ellipsis denotes dense[idx] too, at any nesting depth *)
+Theorem C08_getitem_ellipsis : forall fuel sd bs0 parts bs idx l a' rsd,
+  wf_tree (Stack sd bs0 parts) bs -> ell_basic idx -> spec_expand idx (List.length bs) = Some l -> res_shape l bs = Some rsd ->
+  lz_getitem fuel (Stack sd bs0 parts) idx = Ok a' -> equiv a' (Index l (Stack sd bs0 parts)).
+Proof. exact getitem_ellipsis. Qed.
+Print Assumptions C08_getitem_ellipsis.
+
 (* the cursor arithmetic behind it: for a slice on the stack dim _split_index selects members range(n)[a:b:c], hands
    every member the index without that item, counts the ints / Nones before the stack dim ... *)
 Theorem C08_split_index_slice : forall sd n shape pre a b c post,
@@ -66,8 +80,20 @@ Theorem C08_getitem_adv_after_stack_dim : forall fuel sd bs0 parts bs pre x post
 Proof. exact getitem_adv_after. Qed.
 Print Assumptions C08_getitem_adv_after_stack_dim.
 
-(* the full statement (any single advanced index, also before / on the stack dim, masks spanning it) is NOT proved:
-   those placements are covered by the correspondence run only; several are refuted by the code (findings D28-D31) *)
+(* ... and ONE advanced index BEFORE the stack dim: an integer tensor of any rank >= 1 (the code's num_single -= ndim - 1)
+   or a boolean mask of any rank >= 1 that ends before the stack dim (num_squash += ndim - 1); basic items around it *)
+Theorem C08_getitem_adv_before_stack_dim : forall fuel sd bs0 parts bs p1 A p2 x post a' rsd,
+  parts <> [] -> Forall (fun p => wf_tree p bs /\ is_stack p = false) parts -> (sd <= List.length bs)%nat ->
+  basic p1 -> adv_before A -> basic p2 -> consumed (p1 ++ A :: p2) = sd ->
+  ((exists j, x = IInt j) \/ (exists a b c, x = ISl a b c)) -> basic post ->
+  res_shape ((p1 ++ A :: p2) ++ x :: post) (insert_at sd (lenZ parts) bs) = Some rsd ->
+  lz_getitem (S fuel) (Stack sd bs0 parts) ((p1 ++ A :: p2) ++ x :: post) = Ok a' ->
+  equiv a' (Index ((p1 ++ A :: p2) ++ x :: post) (Stack sd bs0 parts)).
+Proof. exact getitem_adv_before. Qed.
+Print Assumptions C08_getitem_adv_before_stack_dim.
+
+(* the full statement (any single advanced index: also ON the stack dim, masks reaching across it, nested stacks) is NOT
+   proved: those placements are covered by the correspondence run only; several are refuted by the code (D28-D31, D34) *)
 Definition C08_getitem_one_adv_full_statement : Prop :=
   forall fuel self bs idx a' rsd,
     wf_tree self bs -> Forall (fun it => is_ell it = false) idx -> one_adv idx -> res_shape idx bs = Some rsd ->
@@ -114,13 +140,22 @@ Theorem C08_transpose_refuted :
 Proof. exact transpose_refuted. Qed.
 Print Assumptions C08_transpose_refuted.
 
+(* unsqueeze [full for flat stacks]: every rank, every stack dim, every position *)
+Theorem C08_unsqueeze : forall sd bs0 parts bs,
+  parts <> [] -> Forall (fun p => shape_of p = Some bs) parts -> Forall (fun p => is_stack p = false) parts ->
+  (sd <= List.length bs)%nat ->
+  forall fuel d a', (d <= S (List.length bs))%nat ->
+  lz_unsqueeze (S fuel) (Stack sd bs0 parts) (Z.of_nat d) = Ok a' -> equiv_in a' (Unsq d (Stack sd bs0 parts)).
+Proof. exact unsqueeze_ok. Qed.
+Print Assumptions C08_unsqueeze.
+
 Definition C08_lazy_shape_ops_full_statement : Prop :=
   forall sd bs0 parts bs fuel d0 d1 a',
     parts <> [] -> Forall (fun p => shape_of p = Some bs) parts -> (sd <= List.length bs)%nat ->
     (d0 < d1 < S (List.length bs))%nat ->
     lz_transpose (S fuel) (Stack sd bs0 parts) (Z.of_nat d0) (Z.of_nat d1) = Ok a' ->
     equiv_in a' (Transp d0 d1 (Stack sd bs0 parts)).
-(* permute / squeeze / unsqueeze / unbind / split / repeat: model + correspondence only (no theorem yet) *)
+(* permute / squeeze / unbind / split / repeat / expand / view: model + correspondence only (no theorem yet) *)
 
 (* ---- cat(out=) offsets, insert / append -------------------------------------------------------------------- *)
 (* lazy_cat_offsets: with `init_idx += n` operand k goes to members [sum_{i<k} n_i, sum_{i<=k} n_i) ... *)
@@ -157,7 +192,7 @@ Definition ex_tree : arr := Stack 1 [2; 2] [Leaf 0 [2; 2]; Leaf 1 [2; 2]; Leaf 2
 Example C08_ex_tree_wf : wf_tree ex_tree [2; 3; 2].
 Proof.
   apply (wf_stack 1 [2; 2] [Leaf 0 [2; 2]; Leaf 1 [2; 2]; Leaf 2 [2; 2]] [2; 2]); [discriminate| |cbn; auto].
-  repeat constructor.
+  wf_lit.
 Qed.
 (* lazy[None, 1, ::2, -1]: basic, legal (shape [1;2]), returns; the stack dim moves from 1 to 1 *)
 Example C08_ex_getitem :
@@ -181,5 +216,17 @@ Example C08_ex_transpose :
   negb ((Nat.eqb 0 1 && (0 + 3 <=? 2)%nat) || (Nat.eqb 2 1 && (0 + 2 <=? 2)%nat)) = true /\
   exists a', lz_transpose 3 ex_tree 0 2 = Ok a' /\ shape_of a' = Some [2; 3; 2].
 Proof. split; [reflexivity|]. eexists. split; [vm_compute; reflexivity|reflexivity]. Qed.
+Example C08_ex_ellipsis :
+  ell_basic [IEll; IInt (-1)] /\ spec_expand [IEll; IInt (-1)] 3 = Some [ISl None None None; ISl None None None; IInt (-1)] /\
+  exists a', lz_getitem 3 ex_tree [IEll; IInt (-1)] = Ok a' /\ shape_of a' = Some [2; 3].
+Proof. split; [repeat constructor|]. split; [reflexivity|]. eexists. split; [vm_compute; reflexivity|reflexivity]. Qed.
+Example C08_ex_unsqueeze : exists a', lz_unsqueeze 3 ex_tree 1 = Ok a' /\ shape_of a' = Some [2; 1; 3; 2].
+Proof. eexists. split; [vm_compute; reflexivity|reflexivity]. Qed.
+Example C08_ex_adv_before :
+  let t := Stack 2 [2; 2] [Leaf 0 [2; 2]; Leaf 1 [2; 2]; Leaf 2 [2; 2]] in
+  adv_before (ITen [2; 2] [1; 0; 0; 1]) /\ consumed ([INone] ++ ITen [2; 2] [1; 0; 0; 1] :: [IInt 0]) = 2%nat /\
+  exists a', lz_getitem 3 t (([INone] ++ ITen [2; 2] [1; 0; 0; 1] :: [IInt 0]) ++ ISl (Some 1) None None :: []) = Ok a' /\
+             shape_of a' = Some [1; 2; 2; 2].
+Proof. cbn zeta. split; [constructor|]. split; [reflexivity|]. eexists. split; [vm_compute; reflexivity|reflexivity]. Qed.
 Example C08_ex_cat : cat_out_slices_gen false 4 0 [2; 2] = [(0, 2); (2, 4)] /\ cat_out_slices_gen false 3 0 [1; 1; 1] = [(0, 1); (1, 2); (3, 3)].
 Proof. split; reflexivity. Qed.
